@@ -449,8 +449,8 @@ func (g *Gen) fieldLoc(structT types.Type, idx int, base string) (*Loc, Val) {
 	st := structT.Underlying().(*types.Struct)
 	f := st.Field(idx)
 	key := typeKey(structT)
-	if _, ok := f.Type().Underlying().(*types.Struct); ok {
-		// embedded-by-value struct: the sub-object's reference is the outer
+	if isAggregate(f.Type()) {
+		// embedded-by-value struct or array: the sub-object's reference is the outer
 		// reference minus a small constant that is unique per (type, field).
 		// References are allocated refStride apart, so a sub-object is fresh
 		// exactly when its container is, sub-objects of different containers
@@ -470,6 +470,24 @@ func (g *Gen) fieldLoc(structT types.Type, idx int, base string) (*Loc, Val) {
 	}
 	s := g.sortOf(f.Type())
 	return &Loc{Kind: LField, Heap: fieldHeapName(key, f.Name()), Base: base, S: s, G: f.Type()}, Val{}
+}
+
+func isAggregate(t types.Type) bool {
+	switch t.Underlying().(type) {
+	case *types.Struct, *types.Array:
+		return true
+	}
+	return false
+}
+
+// wholeArrayLoc: the location holding all elements of an array object at ref
+// (nil when t is not an array type).
+func (g *Gen) wholeArrayLoc(t types.Type, ref string) *Loc {
+	a, ok := t.Underlying().(*types.Array)
+	if !ok {
+		return nil
+	}
+	return &Loc{Kind: LCell, Heap: elemHeapName(a.Elem()), Base: ref, S: g.sortOf(t), G: t}
 }
 
 func (g *Gen) heapSortOfLoc(l *Loc) string {
@@ -530,7 +548,11 @@ func (g *Gen) loadStruct(st *State, t types.Type, ref string) string {
 	for i := 0; i < s.NumFields(); i++ {
 		loc, sub := g.fieldLoc(t, i, ref)
 		if loc == nil {
-			a = append(a, g.loadStruct(st, s.Field(i).Type(), sub.T))
+			if al := g.wholeArrayLoc(s.Field(i).Type(), sub.T); al != nil {
+				a = append(a, g.loadLoc(st, al).T)
+			} else {
+				a = append(a, g.loadStruct(st, s.Field(i).Type(), sub.T))
+			}
 		} else {
 			a = append(a, g.loadLoc(st, loc).T)
 		}
@@ -548,7 +570,11 @@ func (g *Gen) storeStruct(st *State, t types.Type, ref string, val string) {
 		fv := sx(q("S."+key+"."+f.Name()), val)
 		loc, sub := g.fieldLoc(t, i, ref)
 		if loc == nil {
-			g.storeStruct(st, f.Type(), sub.T, fv)
+			if al := g.wholeArrayLoc(f.Type(), sub.T); al != nil {
+				g.storeLoc(st, al, fv)
+			} else {
+				g.storeStruct(st, f.Type(), sub.T, fv)
+			}
 		} else {
 			g.storeLoc(st, loc, fv)
 		}
@@ -561,7 +587,11 @@ func (g *Gen) zeroStruct(st *State, t types.Type, ref string) {
 		f := s.Field(i)
 		loc, sub := g.fieldLoc(t, i, ref)
 		if loc == nil {
-			g.zeroStruct(st, f.Type(), sub.T)
+			if al := g.wholeArrayLoc(f.Type(), sub.T); al != nil {
+				g.storeLoc(st, al, g.zero(f.Type()))
+			} else {
+				g.zeroStruct(st, f.Type(), sub.T)
+			}
 		} else {
 			g.storeLoc(st, loc, g.zero(f.Type()))
 		}
@@ -575,7 +605,11 @@ func (g *Gen) havocStruct(st *State, t types.Type, ref string) {
 		f := s.Field(i)
 		loc, sub := g.fieldLoc(t, i, ref)
 		if loc == nil {
-			g.havocStruct(st, f.Type(), sub.T)
+			if al := g.wholeArrayLoc(f.Type(), sub.T); al != nil {
+				g.havocLoc(st, al)
+			} else {
+				g.havocStruct(st, f.Type(), sub.T)
+			}
 		} else {
 			g.havocLoc(st, loc)
 		}
